@@ -534,6 +534,18 @@ func (l *lockset) step(x *core.Exec, in ssa.Instruction, a core.AState) ([]core.
 			return nil, false
 		}
 		l.access(x, in, f, base, s, false)
+		// LK12: a []byte field of DB that is initialised once (never stored by shared code) is a scratch buffer whose
+		// CONTENT every user overwrites; it may be picked up only inside a writer section
+		if l.raceEntries[x.Root().Fn] && fieldOwner(p, f) == p.R.DB && core.TypeIs(f.Type(), "[]byte") && !isFresh(x, base) {
+			if _, guarded := l.guarded[f]; !guarded {
+				key := "scratch-buffer:" + ownerName(p, f) + ":" + here + "<-" + entry
+				if s.holds(l.dbMu, 'W') {
+					l.ok("LK12|" + key)
+				} else {
+					x.Report("LK12", key, "shared scratch buffer "+ownerName(p, f)+" picked up outside a writer section: its content is overwritten by every append under db.mu, so an unlocked user reads or writes a half-filled header", in)
+				}
+			}
+		}
 		if f == l.mergeFlag && !isFresh(x, base) {
 			ns := s
 			if s.holds(l.dbMu, 'W') {
